@@ -1032,6 +1032,8 @@ func (bits permission) String() string {
 	return string(perms)
 }
 
+func filetypeFromNumber(v uint64) filetype { return filetype(v) }
+
 func getFiletype(filetype string) (filetype, error) {
 	switch strings.ToLower(filetype) {
 	case "file":
@@ -1049,6 +1051,9 @@ func getFiletype(filetype string) (filetype, error) {
 	case "fifo":
 		return fifoFiletype, nil
 	default:
+		if v, err := strconv.ParseUint(filetype, 0, 32); err == nil {
+			return filetypeFromNumber(v), nil
+		}
 		return 0, fmt.Errorf("invalid filetype '%v'", filetype)
 	}
 }
